@@ -29,7 +29,7 @@ func (b *verifBody) Read(p []byte) (int, error) {
 	return 0, errors.New("verif: body is decoded by the JSON model")
 }
 func (b *verifBody) Close() error     { return nil }
-func (b *verifBody) verifDoc() []byte { return b.doc }
+func (b *verifBody) VerifDoc() []byte { return b.doc }
 
 type verifRecorder struct {
 	header      http.Header
